@@ -324,8 +324,10 @@ impl StructureScanConfig {
     /// Find the first allowlist rule matching a directory.
     #[must_use]
     pub fn find_matching_allowlist_rule(&self, dir: &Path) -> Option<&AllowlistRule> {
+        // Last declared match wins, like structure limits and `explain`.
         self.allowlist_rules
             .iter()
+            .rev()
             .find(|r| r.matches_directory(dir))
     }
 
